@@ -29,7 +29,7 @@ def run(ctx):
             else [("MCStores_q.cfg", 2, 2)])
     batches = []
     for cfg, nrepos, nnodes in runs:
-        res = ctx.tlc("MCStores", cfg, workers=8 if thorough else 4, timeout=3300 if thorough else 600, coverage=False,
+        res = ctx.tlc("MCStores", cfg, workers=1, timeout=3300 if thorough else 600, coverage=False,
                       heap="8g" if thorough else "4g",
                       label="exhaustive per store up to its depth bound (VIEW hides the history); action properties " + PROPS)
         ctx.tlc_ok(res, "MCStores")
@@ -71,7 +71,7 @@ def run(ctx):
     variants = (("SeedKeepsBlock", ("SeedingReflectsLastWrite", "FollowingReflectsLastWrite")), ("SyncIgnoresHead", ("SyncMovesForward",)),
                 ("PruneForgetsLocal", ("PruneKeepsLocal",)), ("AnnNewerOrEqual", ("AnnouncementReplacedByNewer",)))
     for variant, props in (variants if thorough else (variants[0], variants[1 + ctx.seed % 3])):
-        dev = ctx.tlc("MCStores", f"MCStores_dev_{variant}.cfg", workers=2, timeout=300, coverage=False, count=False,
+        dev = ctx.tlc("MCStores", f"MCStores_dev_{variant}.cfg", workers=1, timeout=300, coverage=False, count=False,
                       label=f"sanity: store variant {variant} must violate {' / '.join(props)}")
         if dev.violated not in props:
             raise vlib.ToolError(f"sanity run: variant {variant} was not rejected by TLC ({dev.violated})")
